@@ -255,7 +255,7 @@ def split_entries(model_ok):
     """model ("ok" (entries) restlen alloc) -> list of dicts"""
     out = []
     for e in model_ok[1]:
-        out.append({'name': e[0], 'bytes': e[1], 'wfc': e[2], 'wfs': e[3], 'has_scope': e[4], 'names_ok': e[5], 'size': e[6], 'names_ok_or_known': e[7], 'canon': e[8]})
+        out.append({'name': e[0], 'bytes': e[1], 'wfc': e[2], 'wfs': e[3], 'has_scope': e[4], 'names_ok': e[5], 'size': e[6], 'names_ok_or_known': e[7], 'kind': e[8], 'canon': e[9]})
     return out
 
 def mutants(img, r, positions=None, limit=None):
@@ -280,3 +280,23 @@ def mutants(img, r, positions=None, limit=None):
     if limit is not None and len(out) > limit:
         out = r.sample(out, limit)
     return out
+
+# ---------------------------------------------------------------------------
+# kind-directed evaluation battery for loaded values (C14): `$` is the variable
+
+BAT_NUM = ['$', '@debug $', '$ + 35', '$ 2', '($ 3) + 35', '-$', '1/$', '$^2', '2^$', '$^$', '$^0.5', '$^-1', 'sqrt $', '$!',
+           '$ == 0', '$ == $', '$ < 1', '$ mod 2', '7 mod $', '$ | 1', '$ & 3', '$ xor 1', '$ << 1', '1 << $', '$ >> 1',
+           '5 kg to $', '$ to kg', '$ to m', '$ m', '$ kg + 1 g', '$ to 2 dp', '$ to 0 dp', '$ to 3 sf', '$ to frac',
+           '$ to mixed_frac', '$ to exact', '$ to float', '$ to base 7', '$ to hex', '$ to binary', 'mean $', 'sample $',
+           'abs $', 'floor $', 'ceil $', 'round $', '$ nCr 2', '5 nPr $', 'ln $', 'sin $', 'exp $', 'real $', 'imag $', 'arg $',
+           'conjugate $', 'not $', '$ + $', '$ * $', '$ / $', '$ - $', 'fib $', '$ * 0', '$ to celsius', '$ to roman', '$ to words']
+BAT_DATE = ['$', '@debug $', '$ + 1 day', '$ + 2 days', '$ - 1 day', '$ - 2 days', '($ + 1 day) + 1 day', '(($ + 1 day) + 1 day) + 1 day',
+            '($ - 1 day) - 1 day', '$ + 1 week', '$ + 30 days', '$ + 365 days', '$ + 1 month', '$ - 1 month', '$ + 12 months',
+            '($ + 1 month) + 1 day', '$ + 1 year', '$ - 1 year', '($ + 1 year) + 1 day', '$ - 400 years', '$ + 400 years',
+            '$ + 100000 days', '$ == $', 'month of $', 'day_of_week of $']
+BAT_STR = ['$', '@debug $', '$ + "x"', '"x" + $', '$ + $', '$ == "x"', '$ 2', '$ to 2 dp', '$ + 1']
+BAT_FN = ['$', '@debug $', '$ 1', '$ 2', '$ 0', '($ 2) 3', '$ (3 kg)', '$ "s"', '$ (d6)', '$ (@2020-02-29)', '$ (1/3)', '$ (2+3i)', '$ pi',
+          '(x: $ x) 1', '$ + 1', '$^2', '$^-1 2']
+BAT_OTHER = ['$', '@debug $', '$ + 1', '$ 2', '5 $', '1 to $', '(22/7) to $', '0x1f to $', 'pi to $', '$ == $', 'mass of $', 'gravity of $']
+def battery(kind):
+    return {0: BAT_NUM, 13: BAT_DATE, 8: BAT_STR, 6: BAT_FN, 1: BAT_FN}.get(kind, BAT_OTHER)
